@@ -127,7 +127,6 @@ def presented (a : AdfSt) (perm order : List Nat) : String × String :=
 
 def orderCheck (n : Nat) (sort : String) (perm : List Nat) (labels : List String) (order : List Nat) : String :=
   if order.length != n || !(List.range n).all (fun i => order.contains i) then "violated not-a-permutation"
-  else if sort == "none" && order != perm.filter (· < n) then "violated declaration-order"
   else if sort == "lx" && !((order.zip order.tail).all (fun (x, y) => labels.getD x "" < labels.getD y "")) then "violated bytewise-order"
   else "ok"
 
@@ -218,7 +217,11 @@ def adfStep (a : AdfSt) (l : String) (ws : List String) : Option (List String ×
     | _, _ => some ([l, "= bad-request"], a)
   | ["ordercheck", sort, perm, labels, order] =>
     match parseNatList perm ",", parseNatList order "," with
-    | some perm, some order => some ([l, s!"~ {orderCheck a.n sort perm (labels.splitOn ",") order}"], a)
+    | some perm, some order =>
+      -- without sorting the order is the order of first declaration: how the code behaves, not
+      -- something the property states - correspondence channel
+      let decl := if sort == "none" && order != perm.filter (· < a.n) then "differs" else "ok"
+      some ([l, s!"~ {orderCheck a.n sort perm (labels.splitOn ",") order}", s!"= declaration-order {decl}"], a)
     | _, _ => some ([l, "~ bad-request"], a)
   | ["adf", n] =>
     let n := n.toNat?.getD 0
@@ -256,8 +259,8 @@ def adfStep (a : AdfSt) (l : String) (ws : List String) : Option (List String ×
     | _, _ => some ([l, "= bad-request"], a)
   | "memocheckn" :: n :: t :: rest =>
     match parseTable t, n.toNat? with
-    | some ns, some n => some ([l, s!"~ {memoCheck n true ns rest}"], a)
-    | _, _ => some ([l, "~ bad-request"], a)
+    | some ns, some n => some ([l, s!"= audit {memoCheck n true ns rest}"], a)
+    | _, _ => some ([l, "= bad-request"], a)
   | [what, p] =>
     if what == "adump" then
       match a.pipe p with
